@@ -198,8 +198,8 @@ func nnEntries(e []PEntry) []PEntry {
 	return e
 }
 
-func (h *Hist) shift(d time.Duration) {
-	secs := int64(d / time.Second)
+// age: the world grows older by secs seconds (creation and taint times are kept relative to "now").
+func (h *Hist) age(secs int64) {
 	for _, set := range [][]*WNode{h.api, h.listed} {
 		for _, n := range set {
 			n.CreatedAgo += secs
@@ -210,6 +210,10 @@ func (h *Hist) shift(d time.Duration) {
 			}
 		}
 	}
+}
+
+func (h *Hist) shift(d time.Duration) {
+	h.age(int64(d / time.Second))
 	h.ctl.VerifShiftClock(d)
 	if h.tw != nil {
 		h.tw.ctl.VerifShiftClock(d)
